@@ -484,6 +484,17 @@ type ptEncCase struct {
 // viaForms lists operation-produced representations of the same point.
 var viaForms = []string{"inplace:Add", "inplace:Subtract", "inplace:Negate", "inplace:MultByCofactor", "inplace:ScalarMult", "inplace:SubtractSecond", "Add(P+R,Negate(R))", "used-receiver:Negate", "used-receiver:Add", "used-receiver:SetExtendedCoordinates", "used-receiver:Set", "used-receiver:ScalarMult", "used-receiver:Subtract", "direct", "Add(P-B,B)", "Subtract(P+B,B)", "Negate(Negate)", "ScalarMult(1)", "VarTimeMultiScalarMult([1])", "Add(P,identity)", "Decode", "MultiScalarMult([1])", "VarTimeDouble(1,P,0)", "Add(P-T,T)"}
 
+// observe calls every read-only accessor of p, so that whatever a tree may
+// memoise about a point (an encoding, an affine form, a validity flag) is
+// populated before p is used as a receiver or copied.
+func observe(p *edwards25519.Point) *edwards25519.Point {
+	p.Bytes()
+	p.BytesMontgomery()
+	p.ExtendedCoordinates()
+	p.Equal(p)
+	return p
+}
+
 func viaPoint(c ptEncCase) *edwards25519.Point {
 	pm := c.P.model()
 	p := c.P.point()
@@ -497,6 +508,7 @@ func viaPoint(c ptEncCase) *edwards25519.Point {
 		if err != nil {
 			return nil
 		}
+		observe(r)
 		switch strings.TrimPrefix(c.Via, "used-receiver:") {
 		case "Negate":
 			return r.Negate(alpha.MakePoint(ref.Neg(pm), c.P.Form))
@@ -516,33 +528,36 @@ func viaPoint(c ptEncCase) *edwards25519.Point {
 			return r.ScalarMult(one, p)
 		}
 	}
+	if strings.HasPrefix(c.Via, "zsparse:") {
+		return zsparsePoint(c)
+	}
 	// results computed in place (receiver aliased to an operand)
 	if strings.HasPrefix(c.Via, "inplace:") {
 		R := ref.Mul(big.NewInt(13), B)
 		rp := alpha.MakePoint(R, 5)
 		switch strings.TrimPrefix(c.Via, "inplace:") {
 		case "Add":
-			x := alpha.MakePoint(ref.Sub(pm, R), c.P.Form)
+			x := observe(alpha.MakePoint(ref.Sub(pm, R), c.P.Form))
 			return x.Add(x, rp)
 		case "Subtract":
-			x := alpha.MakePoint(ref.Add(pm, R), c.P.Form)
+			x := observe(alpha.MakePoint(ref.Add(pm, R), c.P.Form))
 			return x.Subtract(x, rp)
 		case "SubtractSecond":
-			x := alpha.MakePoint(ref.Sub(R, pm), c.P.Form)
+			x := observe(alpha.MakePoint(ref.Sub(R, pm), c.P.Form))
 			return x.Subtract(rp, x)
 		case "Negate":
-			x := alpha.MakePoint(ref.Neg(pm), c.P.Form)
+			x := observe(alpha.MakePoint(ref.Neg(pm), c.P.Form))
 			return x.Negate(x)
 		case "MultByCofactor":
 			// P = 8 * (P/8) only in the prime-order part; use x = P + T with 8T = 0 and divide the rest by 8 mod l
 			x := alpha.MakePoint(pm, c.P.Form)
-			y := new(edwards25519.Point).Set(x)
+			y := observe(new(edwards25519.Point).Set(x))
 			y.MultByCofactor(y)
 			// bring it back: compare through the group law instead (8P - 7P)
 			seven := alpha.MakePoint(ref.Mul(big.NewInt(7), pm), (c.P.Form+2)%8)
 			return y.Subtract(y, seven)
 		case "ScalarMult":
-			x := alpha.MakePoint(pm, c.P.Form)
+			x := observe(alpha.MakePoint(pm, c.P.Form))
 			return x.ScalarMult(one, x)
 		}
 	}
@@ -633,11 +648,16 @@ var subC05 = core.NewSub("C05/encode", func(w *core.Worker, c ptEncCase) *core.F
 func init() { register("C05", "exploration", runC05) }
 
 func runC05(ctx *core.Ctx) {
-	ctx.Rule("every point of alphabet P in every injected projective representation (8 forms) and in every operation-produced representation (11 producers: Add, Subtract, Negate, the five scalar multiplications by 1, decode...) -> Bytes() must equal the model encoding byte for byte and round-trip through SetBytes; every accepted string of the C04 decode alphabet (incl. all non-canonical ones) must re-encode canonically (run here on the non-canonical subset). distinct_nontrivial = distinct encodings")
+	ctx.Rule("every point of alphabet P in every injected projective representation (8 forms) and in every operation-produced representation (11 producers: Add, Subtract, Negate, the five scalar multiplications by 1, decode...) -> Bytes() must equal the model encoding byte for byte and round-trip through SetBytes; every accepted string of the C04 decode alphabet (incl. all non-canonical ones) must re-encode canonically (run here on the non-canonical subset); every point with Z stored as each of 62 sparse limb patterns; two-step sequences Bytes(P);Bytes(Q);Bytes(P) (both orders) where Q is a different point whose representation shares one or two stored coordinates with P's. distinct_nontrivial = distinct encodings")
 	ctx.Assume("math/big is correct")
 	all := pointIns(smoke(ctx), []int{0, 1, 2, 3, 4, 5, 6, 7})
 	nv := len(viaForms)
 	subC05.Run(ctx, len(all)*nv, func(i int) ptEncCase { return ptEncCase{all[i/nv], viaForms[i%nv]} })
+	// every point with Z stored as each sparse limb pattern, and two-step
+	// sequences Bytes(P); Bytes(Q) over representations that share stored
+	// coordinates (related.go)
+	subC05.RunList(ctx, zsparseCases(smoke(ctx)))
+	subC05Related.RunList(ctx, relatedCases(smoke(ctx), "Bytes", true))
 	// non-canonical accepted inputs re-encode canonically
 	var nc []decodeCase
 	for d := int64(0); d < 19; d++ {
